@@ -332,10 +332,15 @@ def _work(job):
     i2bbs, name, istart, levels, modes = job
     D = _D
     out = {'name': name, 'i2bbs': i2bbs, 'istart': istart, 'points': 0, 'mism': {}, 'accept': [], 'record': [],
-           'calls': None, 'error': None}
+           'calls': None, 'error': None, 'reject_calls': [], 'levele': {}}
     try:
         prep = prepare(D, {'i2bbs': i2bbs, 'chnuclide': name, 'istart': istart})
         out['record'] = sorted({(k, d) for k, l, d in prep['record']})
+        # port side of the stage-1 residual: scheme calls on any path, deviates consumed outside calls
+        out['port_calls'] = [(n.stmt[1], n.line) for n in prep['gc'].nodes if n.kind == 'call']
+        out['port_draws'] = [n.line for n in prep['gc'].nodes if n.stmt is not None and n.kind in
+                             ('assign', 'branch', 'call', 'eval', 'return') and
+                             sum(ir.count_draws(e) for e in tv._stmt_exprs(n))]
         for lev in levels:
             for mode in modes:
                 ps, gf, gc = compare_point(D, prep, lev, mode)
@@ -343,15 +348,34 @@ def _work(job):
                 if ps[0]:
                     for m in ps[0]:
                         out['mism'].setdefault(m.msg, []).append((lev, mode, m.lines()))
-                paths = tv.path_summaries(gf, prep['fout'], 'f')
-                acc = None
-                if paths is not None and len(paths) == 1:
-                    for o in paths[0][2]:
-                        if o[2] == ('var', 'ier') and o[3][0] == 'num':
-                            acc = int(o[3][1]) == 0
-                    if out['calls'] is None and acc:
-                        out['calls'] = [ir.fmt(c) for c in paths[0][1]]
-                out['accept'].append((lev, mode, acc))
+                accs = []
+                for g_, fo, lg in ((gf, prep['fout'], 'f'), (gc, prep['cout'], 'c')):
+                    paths = tv.path_summaries(g_, fo, lg)
+                    acc = None
+                    if paths is not None:
+                        vals = set()
+                        for pth in paths:
+                            if tv.prune_conditions(pth[0]) is None:
+                                continue
+                            for o in pth[2]:
+                                if o[2] == ('var', 'ier') and o[3][0] == 'num':
+                                    vals.add(int(o[3][1]) == 0)
+                        if len(vals) == 1:
+                            acc = vals.pop()
+                        if lg == 'f' and out['calls'] is None and acc and len(paths) == 1:
+                            out['calls'] = [ir.fmt(c) for c in paths[0][1]]
+                    accs.append(acc)
+                out['accept'].append((lev, mode, accs[0], accs[1]))
+                if paths is not None:          # `paths` is the port side here
+                    for pth in paths:
+                        if tv.prune_conditions(pth[0]) is None:
+                            continue
+                        if accs[1] is False and pth[1]:
+                            out['reject_calls'].append((lev, mode, [ir.fmt(c) for c in pth[1]]))
+                        if True:       # the level energy is tabulated whenever the level index passed the bound check
+                            for o in pth[2]:
+                                if o[2] == ('var', '.levele') and o[3][0] == 'num':
+                                    out['levele'][lev] = int(o[3][1])
     except AnalysisBroken as e:
         out['error'] = str(e)
     return out
@@ -366,8 +390,8 @@ def grid(D, dbd_names, bkg_names, levels, modes, procs=16):
         jobs.append((1, nm, -1, levels, modes))
         jobs.append((1, nm, 1, [0], [1]))
     for nm in bkg_names:
-        jobs.append((2, nm, -1, [0], [1]))     # the generator passes mode 1 for background requests
-        jobs.append((2, nm, 1, [0], [1]))
+        jobs.append((2, nm, -1, [-1], [-1]))     # the generator passes level -1, mode -1 for background requests
+        jobs.append((2, nm, 1, [-1], [-1]))
     import multiprocessing as mp
     ctx = mp.get_context('fork')
     with ctx.Pool(procs) as pool:
